@@ -12,6 +12,8 @@ import Mathlib.Algebra.BigOperators.Ring.List
 import Mathlib.Algebra.BigOperators.Group.List.Lemmas
 import Mathlib.Algebra.CharZero.Defs
 import Mathlib.Tactic.Ring
+import Mathlib.Tactic.FieldSimp
+import Mathlib.Data.Nat.Cast.Basic
 import Mathlib.Tactic.Linarith
 
 set_option linter.unusedSectionVars false
@@ -80,7 +82,8 @@ theorem vals_insertRvf (f : List σ → List σ) (index : Option Nat) (t : Tab (
 
 /-- Projecting the new outcome back onto the old positions recovers the old outcome. -/
 theorem project_oldPos_insOut (f : List σ → List σ) (index : Option Nat) (n m : Nat)
-    (o : List σ) (hn : o.length = n) (hm : (f o).length = m) (hi : ∀ i, index = some i → i ≤ n) :
+    (o : List σ) (hn : o.length = n) (hm : index ≠ none → (f o).length = m)
+    (hi : ∀ i, index = some i → i ≤ n) :
     project (oldPos index n m) (insOut f index o) = o := by
   cases index with
   | none =>
@@ -88,6 +91,7 @@ theorem project_oldPos_insOut (f : List σ → List σ) (index : Option Nat) (n 
     rw [project_range, ← hn]; simp
   | some i =>
     have hin : i ≤ n := hi i rfl
+    have hm := hm (by simp)
     show project (List.range i ++ List.range' (i + m) (n - i)) (o.take i ++ f o ++ o.drop i) = o
     have hlt : (o.take i).length = i := by rw [List.length_take]; omega
     rw [project_append, project_range, project_range']
@@ -97,7 +101,9 @@ theorem project_oldPos_insOut (f : List σ → List σ) (index : Option Nat) (n 
     have e2 : (o.take i ++ f o ++ o.drop i).drop (i + m) = o.drop i := by
       have : (o.take i ++ f o).length = i + m := by rw [List.length_append, hlt, hm]
       rw [← this, List.drop_left]
-    rw [e1, e2, List.take_of_length_le (by rw [List.length_drop]; omega), List.take_append_drop]
+    have e3 : (o.drop i).take (n - i) = o.drop i :=
+      List.take_of_length_le (by rw [List.length_drop]; omega)
+    rw [e1, e2, e3, List.take_append_drop]
 
 /-- On outcomes of a common length (and, for an insertion position, with new symbols of a
 common length) the map `o ↦ new outcome` is injective. -/
@@ -138,6 +144,703 @@ theorem insertRvf_keys_nodup (f : List σ → List σ) (index : Option Nat) (n m
   exact insOut_injOn f index n m o o' (hn o ho) (hn o' ho')
     (fun hne => ⟨hm hne o ho, hm hne o' ho'⟩) e
 
+/-- Projecting the new table back onto the old positions gives back every event weight. -/
+theorem wtBy_insertRvf_old (p : List σ → Prop) [DecidablePred p] (f : List σ → List σ)
+    (index : Option Nat) (n m : Nat) (t : Tab (List σ) α) (hn : ∀ k ∈ keys t, k.length = n)
+    (hm : index ≠ none → ∀ k ∈ keys t, (f k).length = m) (hi : ∀ i, index = some i → i ≤ n) :
+    wtBy p (pushforward (project (oldPos index n m)) (insertRvf f index t)) = wtBy p t := by
+  rw [wtBy_pushforward, wtBy_insertRvf]
+  apply wtBy_congr
+  intro k hk
+  rw [project_oldPos_insOut f index n m k (hn k hk) (fun hne => hm hne k hk) hi]
+
+/-- A stored row keeps its value at its new outcome. -/
+theorem lookup?_insertRvf (f : List σ → List σ) (index : Option Nat) (n m : Nat)
+    (t : Tab (List σ) α) (hnd : (keys t).Nodup) (hn : ∀ k ∈ keys t, k.length = n)
+    (hm : index ≠ none → ∀ k ∈ keys t, (f k).length = m) (o : List σ) (v : α)
+    (hov : (o, v) ∈ t) :
+    lookup? (insertRvf f index t) (insOut f index o) = some v := by
+  rw [lookup?_eq_some_iff (insertRvf_keys_nodup f index n m t hnd hn hm), insertRvf_eq_map]
+  exact List.mem_map.mpr ⟨(o, v), hov, rfl⟩
+
 end InsertWt
+
+/-! ## Independent products of two tables -/
+
+section Prod2
+variable {κ₁ κ₂ κ α : Type} [Semiring α]
+
+/-- The table of all pairs of rows, keyed by `G`, with multiplied values. -/
+theorem wtBy_pairs (p : κ → Prop) [DecidablePred p] (G : κ₁ → κ₂ → κ) (t1 : Tab κ₁ α)
+    (t2 : Tab κ₂ α) :
+    wtBy p (t1.flatMap (fun r => t2.map (fun s => (G r.1 s.1, r.2 * s.2))))
+      = (t1.map (fun r => (t2.map (fun s => if p (G r.1 s.1) then r.2 * s.2 else 0)).sum)).sum := by
+  rw [wtBy_flatMap]
+  apply congrArg
+  apply List.map_congr_left
+  intro r _
+  simp [wtBy, Function.comp_def]
+
+/-- Rectangles: if the event is `P × Q` through `G`, its weight is the product of weights. -/
+theorem sum_pairs_rect (P : κ₁ → Prop) [DecidablePred P] (Q : κ₂ → Prop) [DecidablePred Q]
+    (t1 : Tab κ₁ α) (t2 : Tab κ₂ α) :
+    (t1.map (fun r => (t2.map (fun s => if P r.1 ∧ Q s.1 then r.2 * s.2 else 0)).sum)).sum
+      = wtBy P t1 * wtBy Q t2 := by
+  have inner : ∀ r : κ₁ × α,
+      (t2.map (fun s => if P r.1 ∧ Q s.1 then r.2 * s.2 else 0)).sum
+        = (if P r.1 then r.2 else 0) * wtBy Q t2 := by
+    intro r
+    unfold wtBy
+    rw [← List.sum_map_mul_left]
+    apply congrArg
+    apply List.map_congr_left
+    intro s _
+    by_cases hP : P r.1 <;> by_cases hQ : Q s.1 <;> simp [hP, hQ]
+  simp only [inner]
+  rw [List.sum_map_mul_right]
+  rfl
+
+theorem wtBy_pairs_rect (p : κ → Prop) [DecidablePred p] (G : κ₁ → κ₂ → κ)
+    (P : κ₁ → Prop) [DecidablePred P] (Q : κ₂ → Prop) [DecidablePred Q]
+    (t1 : Tab κ₁ α) (t2 : Tab κ₂ α)
+    (h : ∀ a ∈ keys t1, ∀ b ∈ keys t2, p (G a b) ↔ P a ∧ Q b) :
+    wtBy p (t1.flatMap (fun r => t2.map (fun s => (G r.1 s.1, r.2 * s.2))))
+      = wtBy P t1 * wtBy Q t2 := by
+  rw [wtBy_pairs, ← sum_pairs_rect]
+  apply congrArg
+  apply List.map_congr_left
+  intro r hr
+  apply congrArg
+  apply List.map_congr_left
+  intro s hs
+  have := h r.1 (List.mem_map_of_mem hr) s.1 (List.mem_map_of_mem hs)
+  by_cases hp : p (G r.1 s.1)
+  · rw [if_pos hp, if_pos (this.mp hp)]
+  · rw [if_neg hp, if_neg (fun hh => hp (this.mpr hh))]
+
+theorem mass_pairs (G : κ₁ → κ₂ → κ) (t1 : Tab κ₁ α) (t2 : Tab κ₂ α) :
+    mass (t1.flatMap (fun r => t2.map (fun s => (G r.1 s.1, r.2 * s.2)))) = mass t1 * mass t2 := by
+  rw [← wtBy_true, ← wtBy_true, ← wtBy_true]
+  exact wtBy_pairs_rect _ G _ _ t1 t2 (fun _ _ _ _ => by simp)
+
+theorem keys_pairs (G : κ₁ → κ₂ → κ) (t1 : Tab κ₁ α) (t2 : Tab κ₂ α) :
+    keys (t1.flatMap (fun r => t2.map (fun s => (G r.1 s.1, r.2 * s.2))))
+      = (keys t1).flatMap (fun a => (keys t2).map (G a)) := by
+  simp [keys, List.map_flatMap, List.flatMap_map, Function.comp_def]
+
+/-- The pair table lists each key once when both factors do and `G` is injective on them. -/
+theorem keys_pairs_nodup (G : κ₁ → κ₂ → κ) (t1 : Tab κ₁ α) (t2 : Tab κ₂ α)
+    (h1 : (keys t1).Nodup) (h2 : (keys t2).Nodup)
+    (hinj : ∀ a ∈ keys t1, ∀ a' ∈ keys t1, ∀ b ∈ keys t2, ∀ b' ∈ keys t2,
+      G a b = G a' b' → a = a' ∧ b = b') :
+    (keys (t1.flatMap (fun r => t2.map (fun s => (G r.1 s.1, r.2 * s.2))))).Nodup := by
+  rw [keys_pairs, List.nodup_flatMap]
+  constructor
+  · intro a ha
+    refine h2.map_on ?_
+    intro b hb b' hb' e
+    exact (hinj a ha a ha b hb b' hb' e).2
+  · refine h1.imp_of_mem ?_
+    intro a a' ha ha' hne
+    simp only [Function.onFun]
+    rw [List.disjoint_left]
+    intro z hz hz'
+    obtain ⟨b, hb, rfl⟩ := List.mem_map.mp hz
+    obtain ⟨b', hb', e⟩ := List.mem_map.mp hz'
+    exact hne (hinj a' ha' a ha b' hb' b hb e).1.symm
+
+end Prod2
+
+/-! ## `combine` and `matmul` -/
+
+section Combine
+variable {σ τ α : Type} [DecidableEq σ] [DecidableEq τ] [Semiring α]
+
+/-- Law of `op(X, Y)` for independent `X ~ t1`, `Y ~ t2`. -/
+theorem wtBy_combine (p : τ → Prop) [DecidablePred p] (op : σ → σ → τ) (t1 t2 : Tab σ α) :
+    wtBy p (combine op t1 t2)
+      = (t1.map (fun r => (t2.map (fun s => if p (op r.1 s.1) then r.2 * s.2 else 0)).sum)).sum := by
+  unfold combine
+  rw [wtBy_pushforward]
+  exact wtBy_pairs (fun k : σ × σ => p (op k.1 k.2)) Prod.mk t1 t2
+
+theorem mass_combine (op : σ → σ → τ) (t1 t2 : Tab σ α) :
+    mass (combine op t1 t2) = mass t1 * mass t2 := by
+  unfold combine
+  rw [mass_pushforward]
+  exact mass_pairs Prod.mk t1 t2
+
+theorem wtBy_matmul (p : List σ → Prop) [DecidablePred p] (t1 t2 : Tab σ α) :
+    wtBy p (matmul t1 t2)
+      = (t1.map (fun r => (t2.map (fun s => if p [r.1, s.1] then r.2 * s.2 else 0)).sum)).sum :=
+  wtBy_pairs p (fun a b => [a, b]) t1 t2
+
+theorem mass_matmul (t1 t2 : Tab σ α) : mass (matmul t1 t2) = mass t1 * mass t2 :=
+  mass_pairs (fun a b => [a, b]) t1 t2
+
+theorem keys_matmul_nodup (t1 t2 : Tab σ α) (h1 : (keys t1).Nodup) (h2 : (keys t2).Nodup) :
+    (keys (matmul t1 t2)).Nodup :=
+  keys_pairs_nodup (fun a b => [a, b]) t1 t2 h1 h2 (fun a _ a' _ b _ b' _ e => by
+    simp only [List.cons.injEq, and_true] at e; exact e)
+
+theorem lookupD_matmul (t1 t2 : Tab σ α) (h1 : (keys t1).Nodup) (h2 : (keys t2).Nodup) (a b : σ) :
+    lookupD 0 (matmul t1 t2) [a, b] = lookupD 0 t1 a * lookupD 0 t2 b := by
+  rw [lookupD_eq_wtBy (keys_matmul_nodup t1 t2 h1 h2), lookupD_eq_wtBy h1, lookupD_eq_wtBy h2]
+  exact wtBy_pairs_rect _ (fun a b => [a, b]) _ _ t1 t2 (fun _ _ _ _ => by simp)
+
+end Combine
+
+/-! ## `productTabs` / `productDistribution` -/
+
+section Product
+variable {σ α : Type} [DecidableEq σ] [CommSemiring α]
+
+theorem productTabs_nil : productTabs ([] : List (Tab (List σ) α)) = [([], 1)] := rfl
+
+theorem productTabs_cons (t : Tab (List σ) α) (rest : List (Tab (List σ) α)) :
+    productTabs (t :: rest)
+      = t.flatMap (fun r => (productTabs rest).map (fun s => (r.1 ++ s.1, r.2 * s.2))) := rfl
+
+theorem mem_keys_pairs {κ₁ κ₂ κ : Type} (G : κ₁ → κ₂ → κ) (t1 : Tab κ₁ α) (t2 : Tab κ₂ α)
+    (k : κ) :
+    k ∈ keys (t1.flatMap (fun r => t2.map (fun s => (G r.1 s.1, r.2 * s.2))))
+      ↔ ∃ a ∈ keys t1, ∃ b ∈ keys t2, G a b = k := by
+  rw [keys_pairs]
+  simp [List.mem_flatMap]
+
+theorem mass_productTabs (ts : List (Tab (List σ) α)) :
+    mass (productTabs ts) = (ts.map mass).prod := by
+  induction ts with
+  | nil => simp [productTabs_nil, mass]
+  | cons t rest ih =>
+    rw [productTabs_cons, mass_pairs (fun a b : List σ => a ++ b), ih, List.map_cons,
+      List.prod_cons]
+
+theorem wtBy_productTabs_single (p : List σ → Prop) [DecidablePred p] (t : Tab (List σ) α) :
+    wtBy p (productTabs [t]) = wtBy p t := by
+  rw [productTabs_cons, productTabs_nil, wtBy_pairs p (fun a b : List σ => a ++ b)]
+  simp [wtBy]
+
+theorem keys_productTabs_single (t : Tab (List σ) α) : keys (productTabs [t]) = keys t := by
+  rw [productTabs_cons, productTabs_nil, keys_pairs (fun a b : List σ => a ++ b)]
+  simp [keys]
+
+/-- Value at a concatenation: splits off the first factor when its outcomes have the length
+of the first block. -/
+theorem wtBy_productTabs_cons_eq (t : Tab (List σ) α) (rest : List (Tab (List σ) α))
+    (o s : List σ) (hlen : ∀ k ∈ keys t, k.length = o.length) :
+    wtBy (fun k => k = o ++ s) (productTabs (t :: rest))
+      = wtBy (fun k => k = o) t * wtBy (fun k => k = s) (productTabs rest) := by
+  rw [productTabs_cons]
+  apply wtBy_pairs_rect _ (fun a b : List σ => a ++ b)
+  intro a ha b _
+  constructor
+  · intro e; exact List.append_inj e (hlen a ha)
+  · rintro ⟨rfl, rfl⟩; rfl
+
+/-- Lengths of the outcomes of a product add up. -/
+theorem length_keys_productTabs (ts : List (Tab (List σ) α)) (ns : List Nat)
+    (h : List.Forall₂ (fun t n => ∀ k ∈ keys t, k.length = n) ts ns) :
+    ∀ k ∈ keys (productTabs ts), k.length = ns.sum := by
+  induction h with
+  | nil => intro k hk; simp [productTabs_nil, keys] at hk; simp [hk]
+  | cons hx _ ih =>
+    intro k hk
+    rw [productTabs_cons, mem_keys_pairs (fun a b : List σ => a ++ b)] at hk
+    obtain ⟨a, ha, b, hb, rfl⟩ := hk
+    rw [List.length_append, hx a ha, ih b hb, List.sum_cons]
+
+/-- A product of tables with duplicate-free keys and outcomes of fixed lengths lists each
+outcome once. -/
+theorem keys_productTabs_nodup (ts : List (Tab (List σ) α))
+    (h : ∀ t ∈ ts, (keys t).Nodup ∧ ∃ n, ∀ k ∈ keys t, k.length = n) :
+    (keys (productTabs ts)).Nodup := by
+  induction ts with
+  | nil => simp [productTabs_nil, keys]
+  | cons t rest ih =>
+    rw [productTabs_cons]
+    obtain ⟨hnd, n, hn⟩ := h t (by simp)
+    apply keys_pairs_nodup (fun a b : List σ => a ++ b) _ _ hnd
+      (ih (fun t' ht' => h t' (List.mem_cons_of_mem _ ht')))
+    intro a ha a' ha' b _ b' _ e
+    exact List.append_inj e (by rw [hn a ha, hn a' ha'])
+
+/-- **Value at a concatenation of blocks.** -/
+theorem lookupD_productTabs (ts : List (Tab (List σ) α)) (os : List (List σ))
+    (h : List.Forall₂ (fun t o => (keys t).Nodup ∧ ∀ k ∈ keys t, k.length = o.length) ts os) :
+    lookupD 0 (productTabs ts) os.flatten
+      = (List.zipWith (fun t o => lookupD 0 t o) ts os).prod := by
+  have hall : ∀ ts os, List.Forall₂ (fun (t : Tab (List σ) α) (o : List σ) =>
+      (keys t).Nodup ∧ ∀ k ∈ keys t, k.length = o.length) ts os →
+      ∀ t ∈ ts, (keys t).Nodup ∧ ∃ n, ∀ k ∈ keys t, k.length = n := by
+    intro ts os h
+    induction h with
+    | nil => simp
+    | cons hx _ ih =>
+      intro t ht
+      rcases List.mem_cons.mp ht with e | ht
+      · subst e; exact ⟨hx.1, _, hx.2⟩
+      · exact ih t ht
+  induction h with
+  | nil => simp [productTabs_nil, lookupD, lookup?]
+  | @cons t o ts os hx hrest ih =>
+    have hnd := keys_productTabs_nodup (t :: ts) (hall _ _ (List.Forall₂.cons hx hrest))
+    have hnd' := keys_productTabs_nodup ts (hall _ _ hrest)
+    rw [List.flatten_cons, lookupD_eq_wtBy hnd, wtBy_productTabs_cons_eq t ts o _ hx.2,
+      ← lookupD_eq_wtBy hx.1, ← lookupD_eq_wtBy hnd', ih, List.zipWith_cons_cons, List.prod_cons]
+
+/-- **Marginal of a product on its first block**: the first factor, scaled by the mass of the
+rest. -/
+theorem wtBy_productTabs_first (p : List σ → Prop) [DecidablePred p] (t : Tab (List σ) α)
+    (rest : List (Tab (List σ) α)) (n : Nat) (hlen : ∀ k ∈ keys t, k.length = n) :
+    wtBy p (pushforward (project (List.range n)) (productTabs (t :: rest)))
+      = wtBy p t * mass (productTabs rest) := by
+  rw [wtBy_pushforward, productTabs_cons, ← wtBy_true]
+  apply wtBy_pairs_rect _ (fun a b : List σ => a ++ b)
+  intro a ha b _
+  rw [project_range, ← hlen a ha, List.take_left]
+  simp
+
+/-- **Marginal of a product on the remaining blocks**: the product of the rest, scaled by
+the mass of the first factor. -/
+theorem wtBy_productTabs_rest (p : List σ → Prop) [DecidablePred p] (t : Tab (List σ) α)
+    (rest : List (Tab (List σ) α)) (n m : Nat) (hlen : ∀ k ∈ keys t, k.length = n)
+    (hrest : ∀ k ∈ keys (productTabs rest), k.length = m) :
+    wtBy p (pushforward (project (List.range' n m)) (productTabs (t :: rest)))
+      = mass t * wtBy p (productTabs rest) := by
+  rw [wtBy_pushforward, productTabs_cons, ← wtBy_true]
+  apply wtBy_pairs_rect _ (fun a b : List σ => a ++ b)
+  intro a ha b hb
+  rw [project_range', ← hlen a ha, List.drop_left, List.take_of_length_le (by rw [hrest b hb])]
+  simp
+
+theorem productDistribution_eq (groups : List (List Nat)) (t : Tab (List σ) α) :
+    productDistribution groups t
+      = productTabs (groups.map (fun g => pushforward (project g) t)) := rfl
+
+theorem mass_productDistribution (groups : List (List Nat)) (t : Tab (List σ) α) :
+    mass (productDistribution groups t) = mass t ^ groups.length := by
+  rw [productDistribution_eq, mass_productTabs, List.map_map]
+  have : (mass ∘ fun g => pushforward (project g) t) = fun _ : List Nat => mass t := by
+    funext g; exact mass_pushforward _ _
+  rw [this, List.map_const', List.prod_replicate]
+
+end Product
+
+/-! ## `mixture`, `mixture2` -/
+
+section Mixture
+variable {σ α : Type} [DecidableEq σ] [Semiring α]
+
+theorem mixture_eq (ts : List (Tab σ α)) (w : List α) :
+    mixture ts w = (dedup (ts.flatMap keys)).map (fun o =>
+      (o, (List.zipWith (fun t wi => wi * lookupD 0 t o) ts w).sum)) := by
+  unfold mixture
+  apply List.map_congr_left
+  intro o _
+  rw [lsum_eq_sum]
+
+theorem keys_mixture (ts : List (Tab σ α)) (w : List α) :
+    keys (mixture ts w) = dedup (ts.flatMap keys) := by
+  rw [mixture_eq, keys_map_graph]
+
+/-- The weighted sum vanishes at outcomes no component stores. -/
+theorem zipWith_sum_eq_zero (ts : List (Tab σ α)) (w : List α) (o : σ)
+    (h : ∀ t ∈ ts, o ∉ keys t) :
+    (List.zipWith (fun t wi => wi * lookupD 0 t o) ts w).sum = 0 := by
+  apply List.sum_eq_zero
+  intro x hx
+  obtain ⟨i, hi, rfl⟩ := List.mem_iff_getElem.mp hx
+  rw [List.getElem_zipWith]
+  rw [List.length_zipWith] at hi
+  rw [lookupD_of_not_mem 0 (h _ (List.getElem_mem (by omega))), mul_zero]
+
+/-- **Value of a mixture**: `Σ_i w_i · P_i(o)` for every outcome (absent = 0). -/
+theorem lookupD_mixture (ts : List (Tab σ α)) (w : List α) (o : σ) :
+    lookupD 0 (mixture ts w) o = (List.zipWith (fun t wi => wi * lookupD 0 t o) ts w).sum := by
+  rw [mixture_eq]
+  unfold lookupD
+  rw [lookup?_map_graph]
+  by_cases h : o ∈ dedup (ts.flatMap keys)
+  · rw [if_pos h]; rfl
+  · rw [if_neg h]
+    symm
+    apply zipWith_sum_eq_zero
+    intro t ht ho
+    exact h (mem_dedup.mpr (List.mem_flatMap.mpr ⟨t, ht, ho⟩))
+
+/-- Exchange of the two sums of a mixture over any list of outcomes. -/
+theorem sum_zipWith_exchange (outs : List σ) (ts : List (Tab σ α)) (w : List α) :
+    (outs.map (fun o => (List.zipWith (fun t wi => wi * lookupD 0 t o) ts w).sum)).sum
+      = (List.zipWith (fun t wi => wi * (outs.map (fun o => lookupD 0 t o)).sum) ts w).sum := by
+  induction ts generalizing w with
+  | nil => simp
+  | cons t ts ih =>
+    cases w with
+    | nil => simp
+    | cons wi w =>
+      simp only [List.zipWith_cons_cons, List.sum_cons]
+      rw [List.sum_map_add, ih, List.sum_map_mul_left]
+
+theorem zipWith_congr_left {β γ δ : Type} (f g : β → γ → δ) (l : List β) (w : List γ)
+    (h : ∀ x ∈ l, ∀ y, f x y = g x y) : List.zipWith f l w = List.zipWith g l w := by
+  induction l generalizing w with
+  | nil => simp
+  | cons x l ih =>
+    cases w with
+    | nil => simp
+    | cons y w =>
+      rw [List.zipWith_cons_cons, List.zipWith_cons_cons, h x (by simp) y,
+        ih w (fun x' hx' => h x' (List.mem_cons_of_mem _ hx'))]
+
+/-- **Mass of a mixture**: `Σ_i w_i · mass(t_i)` when each component lists each outcome once. -/
+theorem mass_mixture (ts : List (Tab σ α)) (w : List α) (hnd : ∀ t ∈ ts, (keys t).Nodup) :
+    mass (mixture ts w) = (List.zipWith (fun t wi => wi * mass t) ts w).sum := by
+  rw [mixture_eq, ← wtBy_true, wtBy_map_graph]
+  simp only [if_true]
+  rw [sum_zipWith_exchange]
+  apply congrArg
+  apply zipWith_congr_left
+  intro t ht wi
+  congr 1
+  rw [← sum_map_wtBy_singleton (nodup_dedup (ts.flatMap keys)) t (fun k hk =>
+    mem_dedup.mpr (List.mem_flatMap.mpr ⟨t, ht, hk⟩))]
+  apply congrArg
+  apply List.map_congr_left
+  intro o _
+  exact lookupD_eq_wtBy (hnd t ht) o
+
+theorem zipWith_mul_one_sum (ts : List (Tab σ α)) (w : List α) (hlen : ts.length = w.length)
+    (h1 : ∀ t ∈ ts, mass t = 1) :
+    (List.zipWith (fun t wi => wi * mass t) ts w).sum = w.sum := by
+  induction ts generalizing w with
+  | nil =>
+    cases w with
+    | nil => simp
+    | cons _ _ => simp at hlen
+  | cons t ts ih =>
+    cases w with
+    | nil => simp at hlen
+    | cons wi w =>
+      rw [List.zipWith_cons_cons, List.sum_cons, List.sum_cons, h1 t (by simp), mul_one,
+        ih w (by simpa using hlen) (fun t' ht' => h1 t' (List.mem_cons_of_mem _ ht'))]
+
+/-- Rows of `mixture2`, position-wise. -/
+theorem getElem?_mixture2 (t : Tab σ α) (ts : List (Tab σ α)) (w : List α) (j : Nat) :
+    (mixture2 (t :: ts) w)[j]?
+      = (t[j]?).map (fun r =>
+          (r.1, (List.zipWith (fun ti wi => wi * (vals ti).getD j 0) (t :: ts) w).sum)) := by
+  unfold mixture2
+  simp only [List.getElem?_map, keys]
+  by_cases hj : j < t.length
+  · have h1 : (List.zip (List.map (fun x => x.1) t) (List.range t.length))[j]?
+        = some (t[j].1, j) := by
+      rw [List.getElem?_eq_some_iff]
+      refine ⟨by simp [hj], ?_⟩
+      simp
+    rw [h1, List.getElem?_eq_getElem hj]
+    simp only [Option.map_some, lsum_eq_sum]
+  · have h1 : (List.zip (List.map (fun x => x.1) t) (List.range t.length))[j]? = none := by
+      rw [List.getElem?_eq_none_iff]; simp; omega
+    rw [h1, List.getElem?_eq_none (by omega)]
+    rfl
+
+theorem length_mixture2 (t : Tab σ α) (ts : List (Tab σ α)) (w : List α) :
+    (mixture2 (t :: ts) w).length = t.length := by
+  unfold mixture2; simp [keys]
+
+end Mixture
+
+/-! ## `uniformTab`, `noisyTab` -/
+
+section Uniform
+variable {σ α : Type} [DecidableEq σ] [Field α]
+
+theorem lookupD_uniformTab (ofNat : Nat → α) (outs : List σ) (o : σ) :
+    lookupD 0 (uniformTab ofNat outs) o = if o ∈ outs then 1 / ofNat outs.length else 0 := by
+  unfold uniformTab lookupD
+  rw [lookup?_map_graph]
+  split <;> rfl
+
+theorem keys_uniformTab (ofNat : Nat → α) (outs : List σ) :
+    keys (uniformTab ofNat outs) = outs := by
+  unfold uniformTab; rw [keys_map_graph]
+
+theorem mass_uniformTab (ofNat : Nat → α) (outs : List σ) :
+    mass (uniformTab ofNat outs) = outs.length • (1 / ofNat outs.length) := by
+  unfold uniformTab
+  rw [mass_eq_sum]
+  simp [vals, Function.comp_def, List.map_const', List.sum_replicate]
+
+theorem mass_uniformTab_cast [CharZero α] (outs : List σ) (hne : outs ≠ []) :
+    mass (uniformTab (fun n : Nat => (n : α)) outs) = 1 := by
+  rw [mass_uniformTab, nsmul_eq_mul]
+  have : (outs.length : α) ≠ 0 := by
+    rw [Nat.cast_ne_zero]; exact fun h => hne (List.length_eq_zero_iff.mp h)
+  field_simp
+
+theorem lookupD_noisyTab (ofNat : Nat → α) (alphabets : List (List σ)) (noise : α)
+    (t : Tab (List σ) α) (o : List σ) :
+    lookupD 0 (noisyTab ofNat alphabets noise t) o
+      = (1 - noise) * lookupD 0 t o
+        + noise * (if o ∈ cartesian alphabets then 1 / ofNat (cartesian alphabets).length else 0) := by
+  unfold noisyTab
+  rw [lookupD_mixture]
+  simp only [List.zipWith_cons_cons, List.zipWith_nil_right, List.sum_cons, List.sum_nil,
+    add_zero]
+  rw [lookupD_uniformTab]
+  by_cases h : o ∈ cartesian alphabets
+  · rw [if_pos h, if_pos h]
+  · rw [if_neg h, if_neg h]
+
+end Uniform
+
+/-! ## `erasureTab` -/
+
+section Erasure
+variable {σ α : Type} [DecidableEq σ] [CommRing α]
+
+/-- The erasure channel applied to one outcome: every symbol is kept with weight `1 - ε` or
+replaced by `e` with weight `ε` (the local `expand` of `erasureTab`). -/
+def erasureExpand (e : σ) (eps : α) (o : List σ) : Tab (List σ) α :=
+  o.foldr (fun s acc =>
+    acc.flatMap (fun r => [(s :: r.1, (1 - eps) * r.2), (e :: r.1, eps * r.2)])) [([], 1)]
+
+theorem erasureTab_eq (e : σ) (eps : α) (t : Tab (List σ) α) :
+    erasureTab e eps t
+      = pushforward (fun o => o)
+          (t.flatMap (fun r => (erasureExpand e eps r.1).map (fun x => (x.1, r.2 * x.2)))) := rfl
+
+theorem erasureExpand_nil (e : σ) (eps : α) : erasureExpand e eps [] = [([], 1)] := rfl
+
+theorem erasureExpand_cons (e : σ) (eps : α) (s : σ) (o : List σ) :
+    erasureExpand e eps (s :: o)
+      = (erasureExpand e eps o).flatMap
+          (fun r => [(s :: r.1, (1 - eps) * r.2), (e :: r.1, eps * r.2)]) := rfl
+
+theorem wtBy_split_rows (q : List σ → Prop) [DecidablePred q] (s e : σ) (a b : α)
+    (acc : Tab (List σ) α) :
+    wtBy q (acc.flatMap (fun r => [(s :: r.1, a * r.2), (e :: r.1, b * r.2)]))
+      = a * wtBy (fun k => q (s :: k)) acc + b * wtBy (fun k => q (e :: k)) acc := by
+  induction acc with
+  | nil => simp
+  | cons r acc ih =>
+    rw [List.flatMap_cons, wtBy_append, ih, wtBy_cons, wtBy_cons, wtBy_cons, wtBy_cons]
+    by_cases h1 : q (s :: r.1) <;> by_cases h2 : q (e :: r.1) <;> simp [h1, h2] <;> ring
+
+/-- **Symbol-wise law of the erasure channel.** -/
+theorem wtBy_erasureExpand_cons (q : List σ → Prop) [DecidablePred q] (e : σ) (eps : α) (s : σ)
+    (o : List σ) :
+    wtBy q (erasureExpand e eps (s :: o))
+      = (1 - eps) * wtBy (fun k => q (s :: k)) (erasureExpand e eps o)
+        + eps * wtBy (fun k => q (e :: k)) (erasureExpand e eps o) := by
+  rw [erasureExpand_cons, wtBy_split_rows]
+
+theorem mass_erasureExpand (e : σ) (eps : α) (o : List σ) : mass (erasureExpand e eps o) = 1 := by
+  induction o with
+  | nil => simp [erasureExpand_nil, mass]
+  | cons s o ih =>
+    rw [← wtBy_true, wtBy_erasureExpand_cons, wtBy_true, ih]; ring
+
+/-- Event weights after the erasure channel. -/
+theorem wtBy_erasureTab (q : List σ → Prop) [DecidablePred q] (e : σ) (eps : α)
+    (t : Tab (List σ) α) :
+    wtBy q (erasureTab e eps t)
+      = (t.map (fun r => r.2 * wtBy q (erasureExpand e eps r.1))).sum := by
+  rw [erasureTab_eq, wtBy_pushforward, wtBy_flatMap]
+  apply congrArg
+  apply List.map_congr_left
+  intro r _
+  exact wtBy_map_key_mul_left q (fun k => k) r.2 (erasureExpand e eps r.1)
+
+theorem mass_erasureTab (e : σ) (eps : α) (t : Tab (List σ) α) :
+    mass (erasureTab e eps t) = mass t := by
+  rw [← wtBy_true, wtBy_erasureTab, mass_eq_sum]
+  simp only [wtBy_true, mass_erasureExpand, mul_one, vals]
+
+/-- Single-symbol outcomes: the symbol survives with weight `1 - ε`, and the erasure symbol
+collects `ε` times the total mass. -/
+theorem wtBy_erasureTab_single (q : List σ → Prop) [DecidablePred q] (e : σ) (eps : α)
+    (t : Tab (List σ) α) (h1 : ∀ k ∈ keys t, k.length = 1) :
+    wtBy q (erasureTab e eps t)
+      = (1 - eps) * wtBy q t + eps * (if q [e] then mass t else 0) := by
+  rw [wtBy_erasureTab]
+  induction t with
+  | nil => simp [mass]
+  | cons r t ih =>
+    have hr : r.1.length = 1 := h1 r.1 (by simp)
+    obtain ⟨s, hs⟩ := List.length_eq_one_iff.mp hr
+    rw [List.map_cons, List.sum_cons, ih (fun k hk => h1 k (by simp [hk])), wtBy_cons, hs,
+      wtBy_erasureExpand_cons, erasureExpand_nil]
+    have hm : mass (r :: t) = r.2 + mass t := by
+      rw [mass_eq_sum, mass_eq_sum]; simp [vals]
+    rw [hm]
+    simp only [wtBy_cons, wtBy_nil, add_zero]
+    by_cases hq1 : q [s] <;> by_cases hq2 : q [e] <;> simp [hq1, hq2] <;> ring
+
+end Erasure
+
+/-! ## Statistics: `meanTab`, `centralMoment` -/
+
+section Stats
+variable {α : Type} [CommRing α]
+
+theorem npow_eq_pow (x : α) (k : Nat) : npow x k = x ^ k := by
+  induction k with
+  | zero => simp [npow]
+  | succ k ih => rw [npow, ih, pow_succ, mul_comm]
+
+theorem meanTab_eq (t : Tab α α) : meanTab t = (t.map (fun r => r.1 * r.2)).sum := by
+  unfold meanTab; rw [lsum_eq_sum]
+
+theorem centralMoment_eq (t : Tab α α) (k : Nat) :
+    centralMoment t k = (t.map (fun r => (r.1 - meanTab t) ^ k * r.2)).sum := by
+  unfold centralMoment
+  simp only [lsum_eq_sum, npow_eq_pow]
+
+theorem sum_shift_one (m : α) (t : Tab α α) :
+    (t.map (fun r => (r.1 - m) ^ 1 * r.2)).sum
+      = (t.map (fun r => r.1 * r.2)).sum - m * (vals t).sum := by
+  induction t with
+  | nil => simp [vals]
+  | cons r t ih =>
+    simp only [List.map_cons, List.sum_cons, vals] at ih ⊢
+    rw [ih]; ring
+
+theorem sum_shift_two (m : α) (t : Tab α α) :
+    (t.map (fun r => (r.1 - m) ^ 2 * r.2)).sum
+      = (t.map (fun r => r.1 ^ 2 * r.2)).sum - 2 * m * (t.map (fun r => r.1 * r.2)).sum
+        + m ^ 2 * (vals t).sum := by
+  induction t with
+  | nil => simp [vals]
+  | cons r t ih =>
+    simp only [List.map_cons, List.sum_cons, vals] at ih ⊢
+    rw [ih]; ring
+
+theorem meanTab_const (t : Tab α α) (c : α) (h : ∀ r ∈ t, r.1 = c) :
+    meanTab t = c * mass t := by
+  rw [meanTab_eq, mass_eq_sum]
+  induction t with
+  | nil => simp [vals]
+  | cons r t ih =>
+    simp only [List.map_cons, List.sum_cons, vals] at ih ⊢
+    rw [ih (fun x hx => h x (List.mem_cons_of_mem _ hx)), h r (by simp)]; ring
+
+end Stats
+
+/-! ## `modeTab` -/
+
+section Mode
+variable {σ α : Type} [LinearOrder α] [Zero α]
+
+/-- The running maximum of `modeTab`. -/
+theorem foldMax_spec (t : Tab σ α) (m0 : α) :
+    m0 ≤ t.foldl (fun m r => if m < r.2 then r.2 else m) m0
+      ∧ (∀ r ∈ t, r.2 ≤ t.foldl (fun m r => if m < r.2 then r.2 else m) m0)
+      ∧ (t.foldl (fun m r => if m < r.2 then r.2 else m) m0 = m0
+          ∨ ∃ r ∈ t, r.2 = t.foldl (fun m r => if m < r.2 then r.2 else m) m0) := by
+  induction t generalizing m0 with
+  | nil => simp
+  | cons x t ih =>
+    rw [List.foldl_cons]
+    obtain ⟨h1, h2, h3⟩ := ih (if m0 < x.2 then x.2 else m0)
+    have hm0 : m0 ≤ (if m0 < x.2 then x.2 else m0) := by
+      split
+      · exact le_of_lt ‹_›
+      · exact le_refl _
+    have hx : x.2 ≤ (if m0 < x.2 then x.2 else m0) := by
+      split
+      · exact le_refl _
+      · exact not_lt.mp ‹_›
+    refine ⟨le_trans hm0 h1, ?_, ?_⟩
+    · intro r hr
+      rcases List.mem_cons.mp hr with e | hr
+      · subst e; exact le_trans hx h1
+      · exact h2 r hr
+    · rcases h3 with h3 | ⟨r, hr, h3⟩
+      · by_cases hlt : m0 < x.2
+        · right; exact ⟨x, by simp, by rw [h3, if_pos hlt]⟩
+        · left; rw [h3, if_neg hlt]
+      · right; exact ⟨r, List.mem_cons_of_mem _ hr, h3⟩
+
+theorem mem_modeTab (t : Tab σ α) (o : σ) :
+    o ∈ modeTab t ↔ ∃ v, (o, v) ∈ t
+      ∧ ¬ v < t.foldl (fun m r => if m < r.2 then r.2 else m) 0 := by
+  unfold modeTab
+  simp only [List.mem_map, List.mem_filter, Bool.not_eq_eq_eq_not, Bool.not_true,
+    decide_eq_false_iff_not]
+  constructor
+  · rintro ⟨r, ⟨hr, hlt⟩, rfl⟩; exact ⟨r.2, hr, hlt⟩
+  · rintro ⟨v, hv, hlt⟩; exact ⟨(o, v), ⟨hv, hlt⟩, rfl⟩
+
+end Mode
+
+/-! ## `cumVals` and the median -/
+
+section Cum
+variable {σ α : Type} [AddCommMonoid α]
+
+/-- Running sums started from `s`. -/
+def prefixSums (s : α) : List α → List α
+  | [] => []
+  | x :: l => (s + x) :: prefixSums (s + x) l
+
+theorem cumFold_eq (t : Tab σ α) (acc : List α) (s : α) :
+    t.foldl (fun (a : List α × α) r => (a.1 ++ [a.2 + r.2], a.2 + r.2)) (acc, s)
+      = (acc ++ prefixSums s (vals t), s + (vals t).sum) := by
+  induction t generalizing acc s with
+  | nil => simp [prefixSums, vals]
+  | cons r t ih =>
+    rw [List.foldl_cons, ih]
+    simp [prefixSums, vals, add_assoc]
+
+theorem cumVals_eq (t : Tab σ α) : cumVals t = prefixSums 0 (vals t) := by
+  unfold cumVals; rw [cumFold_eq]; simp
+
+theorem length_prefixSums (s : α) (l : List α) : (prefixSums s l).length = l.length := by
+  induction l generalizing s with
+  | nil => rfl
+  | cons x l ih => simp [prefixSums, ih]
+
+theorem getElem?_prefixSums (s : α) (l : List α) (j : Nat) (hj : j < l.length) :
+    (prefixSums s l)[j]? = some (s + (l.take (j + 1)).sum) := by
+  induction l generalizing s j with
+  | nil => simp at hj
+  | cons x l ih =>
+    cases j with
+    | zero => simp [prefixSums]
+    | succ j =>
+      have := ih (s + x) j (by simpa using hj)
+      simp only [prefixSums, List.getElem?_cons_succ]
+      rw [this, List.take_succ_cons, List.sum_cons, add_assoc]
+
+end Cum
+
+section Median
+variable {α : Type} [Field α] [LinearOrder α]
+
+/-- `numpy`'s `argmax` of a Boolean array: index of the first `True`, `0` if there is none. -/
+def argmaxBool (q : α → Bool) (l : List α) : Nat := if l.any q then l.findIdx q else 0
+
+/-- `dit.algorithms.stats.median` for a scalar numeric distribution: the mean of the first
+outcome whose cumulative probability exceeds `1/2` and the first whose cumulative probability
+reaches `1/2`. -/
+def medianTab (t : Tab α α) : α :=
+  ((keys t).getD (argmaxBool (fun v => decide (1 / 2 < v)) (cumVals t)) 0
+    + (keys t).getD (argmaxBool (fun v => decide (1 / 2 ≤ v)) (cumVals t)) 0) / 2
+
+theorem argmaxBool_spec (q : α → Bool) (l : List α) (h : ∃ v ∈ l, q v = true) :
+    ∃ hj : argmaxBool q l < l.length, q (l[argmaxBool q l]) = true
+      ∧ ∀ i (hi : i < argmaxBool q l), q (l[i]'(by omega)) = false := by
+  have hany : l.any q = true := by
+    rw [List.any_eq_true]; exact h
+  unfold argmaxBool
+  simp only [hany, if_true]
+  refine ⟨List.findIdx_lt_length_of_exists h, List.findIdx_getElem, ?_⟩
+  intro i hi
+  have := List.not_of_lt_findIdx hi
+  simpa using this
+
+end Median
 
 end Dit.Lemmas.Constructors
